@@ -6,6 +6,24 @@ import copy
 from cpppo.dotdict import dotdict, dotdict_base
 
 KEYNAMES = ["a", "b", "l", "keys"]
+# leaf values of the model <-> Python values: 2 and 3 are values that are false in Python (the integer 0, None)
+PYLEAF = {2: 0, 3: None}
+MODLEAF = {0: 2, None: 3}
+
+
+def pyleaf(v):
+    return PYLEAF.get(v, v)
+
+
+def resolve(tok):
+    """tokens -> path (every empty token backs up one level)"""
+    acc = []
+    for t in tok:
+        if t[0] == 0:
+            acc = acc[:-1]
+        else:
+            acc.append(t)
+    return acc
 
 
 def build(entries):
@@ -18,7 +36,7 @@ def build(entries):
             if i < 0:
                 if last:
                     v = e["v"]
-                    dict.__setitem__(cur, name, dotdict() if v == 0 else ([] if v == -1 else v))
+                    dict.__setitem__(cur, name, dotdict() if v == 0 else ([] if v == -1 else pyleaf(v)))
                 else:
                     if not dict.__contains__(cur, name):
                         dict.__setitem__(cur, name, dotdict())
@@ -31,7 +49,7 @@ def build(entries):
                     lst.append(dotdict())
                 if last:
                     if e["v"] != 0:
-                        lst[i] = e["v"]
+                        lst[i] = pyleaf(e["v"])
                 else:
                     cur = lst[i]
     return root
@@ -56,7 +74,9 @@ def flatten(val, prefix=None, out=None):
                 flatten(v, prefix + [[k, -1]], out)
     elif isinstance(val, list) and not val:
         out.append({"p": prefix, "v": -1})
-    elif isinstance(val, bool) or not isinstance(val, int):
+    elif val is None or (val == 0 and type(val) is int):
+        out.append({"p": prefix, "v": MODLEAF[val]})
+    elif isinstance(val, bool) or not isinstance(val, int) or val in PYLEAF:
         out.append({"p": prefix, "v": 99})
     else:
         out.append({"p": prefix, "v": val})
@@ -77,7 +97,9 @@ def project(val, lastkey):
         return {"leaf": False, "v": 0, "sub": sub}
     if isinstance(val, list) and not val:
         return {"leaf": True, "v": -1, "sub": []}
-    if isinstance(val, int) and not isinstance(val, bool):
+    if val is None or (val == 0 and type(val) is int):
+        return {"leaf": True, "v": MODLEAF[val], "sub": []}
+    if isinstance(val, int) and not isinstance(val, bool) and val not in PYLEAF:
         return {"leaf": True, "v": val, "sub": []}
     return {"leaf": True, "v": 99, "sub": []}
 
@@ -89,18 +111,18 @@ def nested(ents, flat=False):
         names = [KEYNAMES[k - 1] for k, i in e["p"]]
         v = e["v"]
         if flat:
-            d[".".join(names)] = {} if v == 0 else v
+            d[".".join(names)] = {} if v == 0 else pyleaf(v)
             continue
         cur = d
         for nm in names[:-1]:
             cur = cur.setdefault(nm, {})
-        cur[names[-1]] = {} if v == 0 else v
+        cur[names[-1]] = {} if v == 0 else pyleaf(v)
     return d
 
 
 def pyval(val, variant=0):
     if val["k"] == "leaf":
-        return val["v"]
+        return pyleaf(val["v"])
     if val["k"] == "map":
         return nested(val["ents"], flat=bool(variant % 2))
     return [build(el) for el in val["elems"]]
@@ -125,7 +147,7 @@ def attr_get(d, tok):
 def run_op(d, o, variant=0):
     """apply operation o to the real dotdict d; returns the event fields (without "o" and "S")"""
     kind, key, tok = o["o"], o["key"], o["tok"]
-    lastkey = tok[-1][0]
+    lastkey = (resolve(tok) or [[0, 0]])[-1][0]
     ev = {"ok": True, "res": NOKEY, "items": [], "selfok": True, "formsok": True}
     try:
         if kind == "get":
